@@ -1,3 +1,4 @@
+\* refuted design: TLC must report ResumeEquivalence violated
 SPECIFICATION Spec
 CONSTANTS Kinds = {"DE", "DE2", "NM", "PW"}
   NP = 2
@@ -5,10 +6,6 @@ CONSTANTS Kinds = {"DE", "DE2", "NM", "PW"}
   MaxInst = 3
   MaxCells = 10
   Settings <- QSettings
-  Design = "ok"
+  Design = "snap_omits_internals"
   MaxOps = 3
-INVARIANT TypeOK
 INVARIANT ResumeEquivalence
-INVARIANT CopyCounts
-INVARIANT RngLabelsFunctional
-PROPERTY Independence
